@@ -208,7 +208,13 @@ impl BlockScope {
         let binders = candidates.iter().try_fold(
             im::HashMap::<VarName, DefId>::new(),
             |binders, candidate| {
-                candidate.binder().binders(&resolver.bitter).into_iter().try_fold(
+                // `binders` is a hash map: visit the names of one pattern in definition
+                // order so that the duplicate that is reported does not depend on the
+                // process's hash keys.
+                let mut names =
+                    candidate.binder().binders(&resolver.bitter).into_iter().collect::<Vec<_>>();
+                names.sort_by_key(|(_, definition)| *definition);
+                names.into_iter().try_fold(
                     binders,
                     |binders, (name, definition)| -> Result<_> {
                         if let Some(previous) = binders.get(&name) {
